@@ -69,7 +69,7 @@ type svdCfg struct {
 
 func genDgesvd(g *vlib.G) {
 	lim := vlib.Pick(g, 6, 10)
-	profs := profSet(g.Thorough(), 3)
+	profs := profSet(g.Thorough(), 4)
 	ldsSmall := [][3]int{{0, 0, 0}, {2, 2, 2}}
 	if g.Thorough() {
 		ldsSmall = append(ldsSmall, [3]int{2, 0, 1}, [3]int{0, 2, 0})
@@ -349,7 +349,7 @@ func bidiag(m, n int, d, e []float64) M {
 
 func genDgebrd(g *vlib.G) {
 	lim := vlib.Pick(g, 6, 10)
-	profs := profSet(g.Thorough(), 3)
+	profs := profSet(g.Thorough(), 4)
 	type cfg struct {
 		m, n int
 		p    prof
